@@ -6,6 +6,7 @@ import (
 	"fmt"
 	"runtime/debug"
 	"strings"
+	"sync/atomic"
 	"testing"
 	"testing/synctest"
 	"time"
@@ -113,7 +114,7 @@ type life struct {
 	// what the server's statistics have been asked to track so far
 	modes map[string]bool
 	peers map[int]bool
-	hooks int
+	hooks atomic.Int64
 }
 
 // current returns the content of one target, looking only if a step addressed it since the last look.
@@ -374,8 +375,8 @@ func lifeOptions(sc *Scenario, l *life) []subscribe.Option {
 			opts = append(opts, subscribe.WithoutDupReport())
 		case "hooks":
 			// the package's test override functions; none of them blocks
-			opts = append(opts, subscribe.WithFlowControlTest(func() { l.hooks++ }), subscribe.WithClientStatsTest(func(int64, int64) { l.hooks++ }),
-				subscribe.WithUpdateSubsCountEnterTest(func() { l.hooks++ }), subscribe.WithUpdateSubsCountExitTest(func() { l.hooks++ }))
+			opts = append(opts, subscribe.WithFlowControlTest(func() { l.hooks.Add(1) }), subscribe.WithClientStatsTest(func(int64, int64) { l.hooks.Add(1) }),
+				subscribe.WithUpdateSubsCountEnterTest(func() { l.hooks.Add(1) }), subscribe.WithUpdateSubsCountExitTest(func() { l.hooks.Add(1) }))
 		}
 		l.st.label("opt-" + o)
 	}
@@ -509,23 +510,35 @@ func runLife(t *testing.T, sc *Scenario) (st *stats, err error) {
 		where = func() string { return "the final valid update and probe" }
 		if !l.c.HasTarget(l.targets[0]) {
 			l.c.Add(l.targets[0])
+			l.mark(l.targets[0])
 		}
-		l.mark(l.targets[0])
-		final := &pb.Notification{Timestamp: 1 << 40, Prefix: &pb.Path{Target: l.targets[0]},
-			Update: []*pb.Update{{Path: &pb.Path{Elem: []*pb.PathElem{{Name: "final"}, {Name: "probe"}}}, Val: &pb.TypedValue{Value: &pb.TypedValue_IntVal{IntVal: 42}}}}}
-		if gerr := l.c.GnmiUpdate(final); gerr != nil {
-			err = fmt.Errorf("after the life scenario the cache rejects a plain valid update %v: %v", final, gerr)
-			return
-		}
-		found := false
+		// (not judged if the life itself stored something at or under the path used for it)
+		taken := false
 		for _, ls := range l.current(l.targets[0]) {
-			if samePath(ls.path, []string{l.targets[0], "final", "probe"}) {
-				found = true
+			for _, e := range ls.path[1:] {
+				taken = taken || e == "final"
 			}
 		}
-		if !found {
-			err = fmt.Errorf("after the life scenario a plain valid update %v was accepted but is not stored", final)
-			return
+		if taken {
+			st.label("final-update-path-taken(not-judged)")
+		} else {
+			l.mark(l.targets[0])
+			final := &pb.Notification{Timestamp: 1 << 40, Prefix: &pb.Path{Target: l.targets[0]},
+				Update: []*pb.Update{{Path: &pb.Path{Elem: []*pb.PathElem{{Name: "final"}, {Name: "probe"}}}, Val: &pb.TypedValue{Value: &pb.TypedValue_IntVal{IntVal: 42}}}}}
+			if gerr := l.c.GnmiUpdate(final); gerr != nil {
+				err = fmt.Errorf("after the life scenario the cache rejects a plain valid update %v: %v", final, gerr)
+				return
+			}
+			found := false
+			for _, ls := range l.current(l.targets[0]) {
+				if samePath(ls.path, []string{l.targets[0], "final", "probe"}) {
+					found = true
+				}
+			}
+			if !found {
+				err = fmt.Errorf("after the life scenario a plain valid update %v was accepted but is not stored", final)
+				return
+			}
 		}
 		for ti, tg := range l.targets {
 			if ti < 2 || ti == len(l.targets)-1 {
